@@ -524,6 +524,18 @@ func dawgFamilies(c *Ctx, prop string) []dawgIn {
 		ws = sortWords(ws)
 		add(dawgIn{Name: fmt.Sprintf("fan%d", k), Adds: ws, Probes: memberProbes(r, ws, 10), Table: true, Gob: true})
 	}
+	// exact node counts around the one-byte boundaries 127/128 and 255/256/257: one word of L letters has L+1 nodes, two words that
+	// share nothing but the root have L1+L2+1
+	for _, L := range []int{126, 127, 128, 254, 255, 256, 257} {
+		w1 := make([]int, L)
+		for k := range w1 {
+			w1[k] = 97 + (k*7)%5 + k%2
+		}
+		add(dawgIn{Name: fmt.Sprintf("chain%d", L+1), Adds: [][]int{w1}, Probes: [][]int{w1, w1[:L-1], append(cp(w1), 97)}, Table: true, Gob: true})
+		w2 := append([]int{122}, w1[:L/2]...)
+		ws := sortWords([][]int{w1[:L-L/2-1], w2})
+		add(dawgIn{Name: fmt.Sprintf("twochains%d", L+1), Adds: ws, Probes: ws, Table: true, Gob: true})
+	}
 	// more than 127 nodes / words: dictionary samples
 	if cw := loadCrosswd(); len(cw) > 1000 {
 		ns := []int{50, 120, 200}
